@@ -14,19 +14,18 @@ from beziers.path.representations.Segment import SegmentRepresentation
 
 ID = "C08"
 TOPICS = []
-LEAN_TARGETS = ["BezierVerif.Props.C08"]
+LEAN_TARGETS = ["BezierVerif.Props.C08", "BezierVerif.Props.C08R"]
 RULE = ("open and closed chains of 1..8 mixed segments with integer / dyadic / arbitrary double coordinates; every rotation of the cyclic node "
         "list (including rotations starting on an off-curve node); malformed node lists (3+ consecutive off-curve nodes, no on-curve node) "
         "as a separate stream; repr round trip on random bit patterns incl. subnormals, -0.0, 17-digit values, powers of two; "
         "non-trivial = at least 2 segments or a curve; distinct = distinct inputs")
-UNPROVED = ["rotation invariance of fromNodelist (every rotation of a closed cyclic node list yields a rotation of the same segment list with exactly one "
-            "closing segment) — sampled over all rotations of every generated contour; theorem planned",
+UNPROVED = ["rotations of a contour that contains a zero-length LINE segment landing on that segment (the closing logic then drops it; excluded by hypothesis in all_rotations) — sampled",
             "repr -> fromRepr bit-identical, '%f' six decimals: Python float printing/parsing is runtime behaviour — sampled over all binary64 classes"]
 ASSUMPTIONS = ["the isclose test on the closing node is read as equality (generated points are identical or >= 1e-3 apart)",
                "zero-length closing lines are outside the domain (a node list cannot encode them)"]
 LEVEL_TEXT = ("theorems about the hand model of toNodelist / fromNodelist / asSVGPath: roundtrip_open, roundtrip_closed (no extra closing segment when the chain "
               "returns to its first point), roundtrip_closed_open_ends (exactly one closing line otherwise), roundtrip_iter_* (any number of conversions), "
-              "toNodelist_points (every control point in order), svg_shape (one M, one command per segment with the right letter and points, Z iff closed); "
+              "toNodelist_points (every control point in order), svg_shape (one M, one command per segment with the right letter and points, Z iff closed); C08R.all_rotations (a closed contour's cyclic node list read from ANY position, also an off-curve one, gives a cyclic rotation of the same segment list, the segment the reading started in being re-assembled as the one closing segment: rotation_core, split_position); "
               "model tied to Segment.py / asSVGPath by exact correspondence incl. malformed lists and all rotations. partial: rotations and text format sampled")
 LEVEL_NOTE = "trusted: Lean kernel (core only: axioms propext/Quot.sound at most), hand model Model/Nodelist.lean (correspondence per run); Python float printing not modelled"
 TECHNIQUE = "hand model of the scanning loops; list induction (scan over a chain's node list); exact correspondence"
